@@ -3,3 +3,9 @@ import sys,re
 p='/tmp/mk/b/lib/carbon/$f'; s=open(p).read(); old=sys.argv[1]; new=sys.argv[2]
 assert old in s, 'pattern not found'
 s=s.replace(old,new,1); open(p,'w').write(s)" "$4" "$6" && (cd /tmp/mk && (for x in $p; do echo "# property: $x"; done; IFS='|'; for x in $e; do echo "# expect: $x"; done; diff -u a/lib/carbon/$f b/lib/carbon/$f) > /verif/selftest/mutants/$n.patch); rm -rf /tmp/mk; grep -c '^[-+]' /verif/selftest/mutants/$n.patch; }
+# harmless edit: mkh name "Cnn Cmm" "old text" file "new text"   -> selftest/harmless/<name>.patch (must stay exit 0)
+mkh() { n=$1; p=$2; f=$4; rm -rf /tmp/mk && mkdir -p /tmp/mk/a /tmp/mk/b && cp -r /repo/lib /tmp/mk/a/lib && cp -r /repo/lib /tmp/mk/b/lib && python3 -c "
+import sys,re
+p='/tmp/mk/b/lib/carbon/$f'; s=open(p).read(); old=sys.argv[1]; new=sys.argv[2]
+assert old in s, 'pattern not found'
+s=s.replace(old,new,1); open(p,'w').write(s)" "$3" "$5" && (cd /tmp/mk && (for x in $p; do echo "# property: $x"; done; diff -u a/lib/carbon/$f b/lib/carbon/$f) > /verif/selftest/harmless/$n.patch); (cd /tmp/mk/b && /venv/bin/python -c "import ast,sys; ast.parse(open('lib/carbon/$f').read())") ; rm -rf /tmp/mk; grep -c '^[-+]' /verif/selftest/harmless/$n.patch; }
